@@ -1,8 +1,41 @@
 import EosProofs.Props.C13World
 import EosProofs.Props.C10
-/-! # C08, world level — results do not depend on iteration order
+/-! # C08, world / message level — observable results do not depend on iteration order
 
-WORK IN PROGRESS HEADER -/
+`EosProofs/Props/C08.lean` has the abstract statements: two histories of the cache machine with the same
+configuration changes and *different legal removal sets* are observationally equal (`obs_schedule_independent`), and
+`Calc.calculate` is invariant under permutations of the gathered modifications (`gather_order_irrelevant`).  This file
+carries the property to the world specification and the message-level model.
+
+What the model can carry.  At message level the calculation service is the *only* service of the model, so "the order
+in which a fit notifies its services of a message" has no counterpart between services.  What remains of the property
+is the iteration order of the sets the calculation and the handlers walk through:
+
+1. **The item set, the effect list of a type, the modifier list of an effect** — the three lists `World.gather` /
+   `Micro.gatherD` iterate over.
+   * `gather_order_irrelevant_world`: configurations whose item lists are permutations of each other (`ItemsPerm`:
+     same fits, same source) have from-scratch tables `World.evalAll` that answer **every** public read alike.
+   * `modifier_order_irrelevant_world`, `effect_order_irrelevant_world`: the same for any re-listing of the modifiers
+     of the universe's effects (`reorderMods σ`) and of the effect ids of its item types (`reorderEffs τ`);
+     `iteration_order_irrelevant_world`: all three at once.
+   * one rank level, any reader: `gather_items_perm` (permuted lists of modifications, or an error on both sides),
+     `valueOf_items_perm`; the induction along the rank order is `evalAll_fold_rel`.
+   * message level: `obs_item_order_irrelevant_world` (two legal histories ending in settled states of
+     configurations that differ in the item order observe the same values, the table's), and — for **every** reachable
+     state, settled or not — `spec_item_order_irrelevant_world` / `obs_item_order_any_state_world` (`Micro.gatherD`
+     iterates over `cfg.items` as well).
+   Hypotheses: `rankWF u` (acyclic attribute dependencies) and unique item ids.  Without `rankWF` the statement is
+   false as an equality of `Val`s: the gathering stops at the first error, so one order can report `divZero` where the
+   other reports the rank-violation marker `notWF` (`valueOf_items_perm` states exactly this alternative).
+2. **The direct invalidation list and the reverse-dependency enumeration of the cascade** — the sets the handlers
+   of `EffectsStarted/Stopped`, `EffectApplied/Unapplied` and `_revise_regular_attr_dependents` walk through.
+   `cascade_order_irrelevant_world`: `visitAll` over two lists with the same members leaves the *same cache* (not only
+   the same observations); `cascade_rdeps_order_irrelevant_world`: the same for any enumerator with the same members
+   as `Micro.rdeps`.  New machinery: `casc_visit_justified` (the depth-first cascade removes nothing without a
+   reason) and `contract_unique` (contract + justification determine the removal set).
+
+Not stated here: an order between *different services* (none in the model), and the order of the messages themselves
+(that is `C13World.setup_order_irrelevant_world` / `C09World.reads_reorder_world`). -/
 namespace Eos.C08World
 open Eos.World Eos.Calc Eos.Micro Eos.Micro.L Eos.DepCache Eos.Machine Eos.C01World
 
@@ -1043,5 +1076,427 @@ example :
     ⟨List.reverse_perm settleCfg.items, rfl, rfl⟩
     (by unfold UniqueIds; decide) (fun e _ => List.reverse_perm e.mods) (fun ty _ => List.reverse_perm ty.effects)
     settleShip 37, by decide +kernel⟩
+
+/-! ## The invalidation cascade does not depend on the order of the direct invalidation list
+
+`Lemmas/MicroCascade.lean` proves what the depth-first cascade guarantees (`Cascade.Contract`: it only removes,
+every listed node ends up uncached, the removal set is closed under `rdeps`).  For order independence the converse
+is needed as well: the cascade removes *nothing else* — every removed entry is a listed node or a reverse
+dependency of a removed cached entry (`Justified`).  With ranks growing along `rdeps` the two together determine
+the result. -/
+
+section cascade
+open Eos.Cascade
+variable {N V : Type} [DecidableEq N]
+
+/-- Every entry removed between `K` and `K'` is justified: a direct target, or a reverse dependency of a cached
+entry that was removed. -/
+def Justified (rdeps : N → List N) (direct : List N) (K K' : Cascade.Cache N V) : Prop :=
+  ∀ n, K n ≠ none → K' n = none → n ∈ direct ∨ ∃ m, K m ≠ none ∧ K' m = none ∧ n ∈ rdeps m
+
+omit [DecidableEq N] in
+theorem justified_fold (rdeps : N → List N) (v : Cascade.Cache N V → N → Cascade.Cache N V)
+    (hs : ∀ K t, Sub K (v K t)) (hj : ∀ K t, Justified rdeps [t] K (v K t)) :
+    ∀ (l : List N) (K : Cascade.Cache N V), Justified rdeps l K (l.foldl v K) := by
+  have hfold : ∀ (l : List N) (K : Cascade.Cache N V), Sub K (l.foldl v K) := by
+    intro l
+    induction l with
+    | nil => intro K; exact Sub.refl K
+    | cons t l ih => intro K; exact (hs K t).trans (ih (v K t))
+  intro l
+  induction l with
+  | nil => intro K n h1 h2; exact absurd h2 h1
+  | cons t l ih =>
+    intro K n h1 h2
+    simp only [List.foldl_cons] at h2 ⊢
+    by_cases hmid : v K t n = none
+    · rcases hj K t n h1 hmid with h | ⟨m, hm1, hm2, hm3⟩
+      · exact Or.inl (by rw [List.mem_singleton.1 h]; exact List.mem_cons_self)
+      · exact Or.inr ⟨m, hm1, mono_none (hfold l (v K t)).mono hm2, hm3⟩
+    · rcases ih (v K t) n hmid h2 with h | ⟨m, hm1, hm2, hm3⟩
+      · exact Or.inl (List.mem_cons_of_mem _ h)
+      · exact Or.inr ⟨m, (hs K t).mono m hm1, hm2, hm3⟩
+
+/-- The depth-first cascade removes nothing without a reason (any fuel). -/
+theorem casc_visit_justified (rdeps : N → List N) : ∀ fuel : Nat,
+    (∀ (K : Cascade.Cache N V) (n : N), Justified rdeps (rdeps n) K (Cascade.casc rdeps fuel K n)) ∧
+    (∀ (K : Cascade.Cache N V) (t : N), Justified rdeps [t] K (Cascade.visit rdeps fuel K t)) := by
+  have vis : ∀ fuel,
+      (∀ (K : Cascade.Cache N V) (n : N), Justified rdeps (rdeps n) K (Cascade.casc rdeps fuel K n)) →
+      ∀ (K : Cascade.Cache N V) (t : N), Justified rdeps [t] K (Cascade.visit rdeps fuel K t) := by
+    intro fuel hc K t n h1 h2
+    unfold Cascade.visit at h2
+    by_cases hk : K t = none
+    · rw [if_pos hk] at h2; exact absurd h2 h1
+    · rw [if_neg hk] at h2
+      by_cases hnt : n = t
+      · exact Or.inl (by rw [hnt]; exact List.mem_singleton.2 rfl)
+      · have hsub := (casc_visit_sub rdeps fuel).1 (Cascade.drop K t) t
+        have ht : Cascade.casc rdeps fuel (Cascade.drop K t) t t = none :=
+          mono_none hsub.mono (by simp [Cascade.drop])
+        rcases hc (Cascade.drop K t) t n (by simpa [Cascade.drop, hnt] using h1) h2 with h | ⟨m, hm1, hm2, hm3⟩
+        · exact Or.inr ⟨t, hk, by unfold Cascade.visit; rw [if_neg hk]; exact ht, h⟩
+        · exact Or.inr ⟨m, (drop_mono K t) m hm1, by unfold Cascade.visit; rw [if_neg hk]; exact hm2, hm3⟩
+  intro fuel
+  induction fuel with
+  | zero =>
+    have hc : ∀ (K : Cascade.Cache N V) (n : N), Justified rdeps (rdeps n) K (Cascade.casc rdeps 0 K n) := by
+      intro K n x h1 h2; simp only [Cascade.casc] at h2; exact absurd h2 h1
+    exact ⟨hc, vis 0 hc⟩
+  | succ f ih =>
+    have hc : ∀ (K : Cascade.Cache N V) (n : N),
+        Justified rdeps (rdeps n) K (Cascade.casc rdeps (f + 1) K n) := by
+      intro K n
+      simp only [Cascade.casc]
+      exact justified_fold rdeps _ (casc_visit_sub rdeps f).2 ih.2 _ K
+    exact ⟨hc, vis (f + 1) hc⟩
+
+omit [DecidableEq N] in
+/-- **A contract-satisfying, justified removal is unique**: two caches obtained from `K` by removing a set that
+contains the direct targets, is closed under the reverse dependencies and contains nothing unjustified — for two
+enumerations `rdeps`, `rdeps'` of the reverse dependencies and two direct lists with the same members — are
+equal, provided ranks grow along `rdeps` between cached nodes. -/
+theorem contract_unique {rdeps rdeps' : N → List N} {direct direct' : List N} {K K1 K2 : Cascade.Cache N V}
+    (rank : N → Nat) (hr : ∀ m x, K m ≠ none → K x ≠ none → x ∈ rdeps m → rank m < rank x)
+    (hrd : ∀ m x, x ∈ rdeps m ↔ x ∈ rdeps' m) (hd : ∀ n, n ∈ direct ↔ n ∈ direct')
+    (c1 : Contract rdeps K K1 direct) (j1 : Justified rdeps direct K K1)
+    (c2 : Contract rdeps' K K2 direct') (j2 : Justified rdeps' direct' K K2) : K1 = K2 := by
+  have key : ∀ (rd rd' : N → List N) (dl dl' : List N) (A B : Cascade.Cache N V),
+      (∀ m x, K m ≠ none → K x ≠ none → x ∈ rd m → rank m < rank x) → (∀ m x, x ∈ rd m → x ∈ rd' m) →
+      (∀ n, n ∈ dl → n ∈ dl') → Justified rd dl K A → Contract rd' K B dl' →
+      ∀ (r : Nat) (n : N), rank n < r → K n ≠ none → A n = none → B n = none := by
+    intro rd rd' dl dl' A B hrk hsub hdl jA cB r
+    induction r with
+    | zero => intro n h; exact absurd h (Nat.not_lt_zero _)
+    | succ r ih =>
+      intro n hn hK hA
+      rcases jA n hK hA with h | ⟨m, hm1, hm2, hm3⟩
+      · exact cB.2.1 n (hdl n h)
+      · have hlt := hrk m n hm1 hK hm3
+        exact cB.2.2 m hm1 (ih m (by omega) hm1 hm2) n (hsub m n hm3)
+  have h12 : ∀ n, K n ≠ none → K1 n = none → K2 n = none := fun n =>
+    key rdeps rdeps' direct direct' K1 K2 hr (fun m x => (hrd m x).1) (fun n => (hd n).1) j1 c2 _ n
+      (Nat.lt_succ_self _)
+  have h21 : ∀ n, K n ≠ none → K2 n = none → K1 n = none := fun n =>
+    key rdeps' rdeps direct' direct K2 K1 (fun m x hm hx h => hr m x hm hx ((hrd m x).2 h))
+      (fun m x => (hrd m x).2) (fun n => (hd n).2) j2 c1 _ n (Nat.lt_succ_self _)
+  funext n
+  by_cases hK : K n = none
+  · rw [mono_none c1.1.mono hK, mono_none c2.1.mono hK]
+  · rcases c1.1 n with a | a
+    · rw [a, h12 n hK a]
+    · rcases c2.1 n with b | b
+      · rw [h21 n hK b] at a; exact absurd a.symm hK
+      · rw [a, b]
+
+end cascade
+
+section microcascade
+variable {u : Universe}
+
+/-- **The cache after a message does not depend on the order of the direct invalidation list** (nor on
+repetitions in it): `visitAll` — `_force_recalc` of every listed node plus the `AttrsValueChanged` cascade, with the
+model's fuel — over two lists with the same members yields the same cache.  Uses `rankWF`, `UniqueAttrs`; every
+cached node has attribute metadata (true of every coherent cache, `hasMeta_of_cached`). -/
+theorem cascade_order_irrelevant_world (cfg : Config) (d : Dyn) (hwf : rankWF u = true) (hun : UniqueAttrs u)
+    (K : Micro.Cache) (hK : ∀ x, K x ≠ none → HasMeta u x) {direct direct' : List Node}
+    (hd : ∀ n, n ∈ direct ↔ n ∈ direct') :
+    visitAll u cfg d (fuelOf u) K direct = visitAll u cfg d (fuelOf u) K direct' := by
+  have hw := (rankWF_iff u).1 hwf
+  have j : ∀ l, Justified (rdeps u cfg d) l K (visitAll u cfg d (fuelOf u) K l) := by
+    intro l
+    rw [visitAll_eq]
+    exact justified_fold _ _ (Cascade.casc_visit_sub _ _).2 (casc_visit_justified _ _).2 l K
+  exact contract_unique (rankOf u) (fun m x hm hx h => rdeps_rank hw hun (hK m hm) (hK x hx) h)
+    (fun _ _ => Iff.rfl) hd (visitAll_contract u cfg d hw hun K hK direct) (j direct)
+    (visitAll_contract u cfg d hw hun K hK direct') (j direct')
+
+/-- The same for the order in which the reverse dependencies are enumerated inside the cascade: any enumerator
+`rdeps'` with the same members as `Micro.rdeps` (e.g. the handlers walking their hash-ordered sets differently)
+drives the generic cascade to the same cache. -/
+theorem cascade_rdeps_order_irrelevant_world (cfg : Config) (d : Dyn) (hwf : rankWF u = true) (hun : UniqueAttrs u)
+    (K : Micro.Cache) (hK : ∀ x, K x ≠ none → HasMeta u x) (rdeps' : Node → List Node)
+    (hrd : ∀ m x, x ∈ rdeps u cfg d m ↔ x ∈ rdeps' m) {direct direct' : List Node}
+    (hd : ∀ n, n ∈ direct ↔ n ∈ direct') :
+    visitAll u cfg d (fuelOf u) K direct =
+      direct'.foldl (fun K t => Cascade.visit rdeps' (fuelOf u) K t) K := by
+  have hw := (rankWF_iff u).1 hwf
+  have j : Justified (rdeps u cfg d) direct K (visitAll u cfg d (fuelOf u) K direct) := by
+    rw [visitAll_eq]
+    exact justified_fold _ _ (Cascade.casc_visit_sub _ _).2 (casc_visit_justified _ _).2 direct K
+  have j' : Justified rdeps' direct' K (direct'.foldl (fun K t => Cascade.visit rdeps' (fuelOf u) K t) K) :=
+    justified_fold _ _ (Cascade.casc_visit_sub _ _).2 (casc_visit_justified _ _).2 direct' K
+  have c' := Cascade.visitAll_spec rdeps' (rankOf u) u.attrs.length (HasMeta u)
+    (fun m x hm hx h => rdeps_rank hw hun hm hx ((hrd m x).2 h)) (fun x hx => rankOf_lt_of_meta hx)
+    (fuelOf u) (by unfold fuelOf; omega) K hK direct'
+  exact contract_unique (rankOf u) (fun m x hm hx h => rdeps_rank hw hun (hK m hm) (hK x hx) h)
+    hrd hd (visitAll_contract u cfg d hw hun K hK direct) j c' j'
+
+/-- Message level: the four handlers that force-recalculate a direct list (`EffectsStarted`, `EffectsStopped`,
+`EffectApplied`, `EffectUnapplied`) leave the cache `visitAll … direct`; by the theorem above any other order of
+`direct` gives the cache of `mstep`.  Stated for `EffectsStarted`; the other three are the same line. -/
+theorem mstep_start_direct_order (hwf : rankWF u = true) (hun : UniqueAttrs u) (s : MState)
+    (hK : ∀ x, s.cache x ≠ none → HasMeta u x) (i : Nat) (es : List Int) {direct' : List Node}
+    (hd : direct'.Perm (directOf u s.cfg (setOn s.dyn i es true)
+      (localSpecsOf u s.cfg (setOn s.dyn i es true) i es))) :
+    (mstep u s (.start i es)).cache =
+      visitAll u s.cfg (setOn s.dyn i es true) (fuelOf u) s.cache direct' :=
+  cascade_order_irrelevant_world s.cfg _ hwf hun s.cache hK fun _ => (hd.mem_iff).symm
+
+end microcascade
+
+/-! ### Non-vacuity of the cascade theorem
+
+The settled two-item world of `Lemmas/MicroAssembly.lean` with the ship's attribute 37 and the module's attribute 20
+cached (a table for the cache): force-recalculating `[(2, 20), (1, 37)]` and `[(1, 37), (2, 20), (1, 37)]` gives the
+same cache — in the first order `(1, 37)` is already gone (removed by the cascade from `(2, 20)`) when its turn
+comes, in the second it is dropped first —, and `(1, 37)` is not cached afterwards. -/
+
+example :
+    visitAll settleU settleCfg (derivedDyn settleU settleCfg) (fuelOf settleU)
+        (tblFun [((2, 20), (3/2 : Rat)), ((1, 37), 225)]) [(2, 20), (1, 37)] =
+      visitAll settleU settleCfg (derivedDyn settleU settleCfg) (fuelOf settleU)
+        (tblFun [((2, 20), (3/2 : Rat)), ((1, 37), 225)]) [(1, 37), (2, 20), (1, 37)] ∧
+    visitAll settleU settleCfg (derivedDyn settleU settleCfg) (fuelOf settleU)
+        (tblFun [((2, 20), (3/2 : Rat)), ((1, 37), 225)]) [(2, 20), (1, 37)] (1, 37) = none ∧
+    (1, 37) ∈ rdeps settleU settleCfg (derivedDyn settleU settleCfg) (2, 20) := by
+  have hK : ∀ x, tblFun [((2, 20), (3/2 : Rat)), ((1, 37), 225)] x ≠ none → HasMeta settleU x := by
+    intro x hx
+    by_cases h1 : x = (2, 20)
+    · rw [h1]; unfold HasMeta; decide
+    · by_cases h2 : x = (1, 37)
+      · rw [h2]; unfold HasMeta; decide
+      · exact absurd (by simp [tblFun, Ne.symm h1, Ne.symm h2]) hx
+  refine ⟨cascade_order_irrelevant_world settleCfg _ (by decide) settle_wf.1 _ hK (fun n => by simp; tauto), ?_,
+    by decide +kernel⟩
+  exact (visitAll_contract settleU settleCfg _ ((rankWF_iff settleU).1 (by decide)) settle_wf.1 _ hK _).2.1 (1, 37)
+    (by simp)
+
+/-! ### Non-vacuity of `obs_item_order_irrelevant_world`: the fleet of `C01World` with its items listed backwards
+
+`fleetCfgRev` is `fleetCfg` with the item list `[ship 3, module 2, ship 1]`.  The messages of `fleetHist` are a legal
+history from the corresponding start state as well and end `BuffSettled`; the theorem applies to the pair
+(`fleetHist` on `fleetCfg`, `fleetHist` on `fleetCfgRev`): both observe 150 at ship 3's attribute 37. -/
+
+def fleetCfgRev : Config := { fleetCfg with items := [fleetShip3, fleetMod, fleetShip1] }
+def fleetD0Rev : Dyn :=
+  { loaded := (derivedDyn fleetU fleetCfgRev).loaded, on := fun _ _ => false, tgts := fun _ _ => [] }
+def fleetS0Rev : MState := ⟨fleetCfgRev, fleetD0Rev, fun _ => none⟩
+
+theorem fleetRev_perm : ItemsPerm fleetCfg fleetCfgRev :=
+  ⟨List.reverse_perm [fleetShip1, fleetMod, fleetShip3], rfl, rfl⟩
+
+theorem fleetRev_wf : UniqueIds fleetCfgRev ∧ ChargeWF fleetCfgRev ∧ TgtKinds fleetCfgRev fleetD0Rev := by
+  refine ⟨by unfold UniqueIds; decide, ?_, ?_⟩
+  · intro x hx hk
+    simp only [fleetCfgRev, fleetShip1, fleetMod, fleetShip3, List.mem_cons, List.not_mem_nil, or_false] at hx
+    rcases hx with rfl | rfl | rfl <;> cases hk
+  · intro a e t ht
+    simp [targetsOf, fleetD0Rev] at ht
+
+theorem fleetRev_readLegal (s : MState) (hc : s.cfg = fleetCfgRev)
+    (hd : s.dyn = (wrun fleetU fleetW fleetS0Rev (fleetHist.take 4)).dyn) :
+    Legal fleetW (toState s) (.read fun n => n == (3, 37) || n == (2, 2469)) := by
+  intro n hn m hm _
+  have : (toState s).cfg = (fleetCfgRev, (wrun fleetU fleetW fleetS0Rev (fleetHist.take 4)).dyn) := by
+    show (s.cfg, s.dyn) = _; rw [hc, hd]
+  rw [this] at hm
+  have hdeps : ∀ n, (n == ((3 : Nat), (37 : Int)) || n == (2, 2469)) = true →
+      ∀ m ∈ (fleetW (fleetCfgRev, (wrun fleetU fleetW fleetS0Rev (fleetHist.take 4)).dyn)).deps n, m = (2, 2469) := by
+    intro n hn
+    simp only [Bool.or_eq_true, beq_iff_eq] at hn
+    rcases hn with rfl | rfl <;> decide +kernel
+  left
+  rw [hdeps n hn m hm]; rfl
+
+theorem fleetRev_runOK : WRunOKE fleetU specImmune specLimited fleetPen fleetW fleetS0Rev fleetHist := by
+  refine ⟨⟨?_, fun _ => ⟨?_, ?_⟩⟩, ⟨trivial, fun _ => ⟨?_, ?_⟩⟩, ⟨?_, fun h => by cases h⟩,
+    ⟨?_, fun _ => ⟨?_, ?_⟩⟩, ?r, trivial⟩
+  case r => refine fleetRev_readLegal _ ?_ ?_ <;> rfl
+  · intro e _; rfl
+  all_goals first
+    | (unfold ErrorFree; decide +kernel)
+    | rfl
+    | (intro j hj t ht
+       simp only [List.mem_cons, List.not_mem_nil, or_false] at hj
+       rcases hj with rfl | rfl <;> (cases ht; rfl))
+
+theorem fleetRev_item1 : item? fleetCfgRev 1 = some fleetShip1 := rfl
+theorem fleetRev_item2 : item? fleetCfgRev 2 = some fleetMod := rfl
+theorem fleetRev_item3 : item? fleetCfgRev 3 = some fleetShip3 := rfl
+theorem fleetRev_itemN {i : Nat} (h1 : i ≠ 1) (h2 : i ≠ 2) (h3 : i ≠ 3) : item? fleetCfgRev i = none := by
+  simp [item?, fleetCfgRev, fleetShip1, fleetMod, fleetShip3]; omega
+
+theorem fleetRev_hset : BuffSettled fleetU (wrun fleetU fleetW fleetS0Rev fleetHist).cfg specImmune specLimited
+    fleetPen (wrun fleetU fleetW fleetS0Rev fleetHist).dyn := by
+  show BuffSettled fleetU fleetCfgRev specImmune specLimited fleetPen (wrun fleetU fleetW fleetS0Rev fleetHist).dyn
+  have r1 : runningEffects fleetU fleetCfgRev fleetShip1 = [] := by decide +kernel
+  have r2 : runningEffects fleetU fleetCfgRev fleetMod = [⟨2000, 1, none, none, true, []⟩] := by rfl
+  have r3 : runningEffects fleetU fleetCfgRev fleetShip3 = [] := by decide +kernel
+  refine BuffSettled.intro rfl ?_ ?_ ?_
+  · show (fun j e => if j = 2 ∧ e ∈ [2000] then true else false) = _
+    funext j e
+    by_cases h1 : j = 1
+    · subst h1
+      have : runningIds fleetU fleetCfgRev fleetShip1 = [] := by decide +kernel
+      simp [derivedDyn, fleetRev_item1, this]
+    · by_cases h2 : j = 2
+      · subst h2
+        have : runningIds fleetU fleetCfgRev fleetMod = [2000] := by decide +kernel
+        simp [derivedDyn, fleetRev_item2, this]
+      · by_cases h3 : j = 3
+        · subst h3
+          have : runningIds fleetU fleetCfgRev fleetShip3 = [] := by decide +kernel
+          simp [derivedDyn, fleetRev_item3, this]
+        · simp [derivedDyn, fleetRev_itemN h1 h2 h3, h2]
+  · intro a ha e he hbf
+    simp only [fleetCfgRev, List.mem_cons, List.not_mem_nil, or_false] at ha
+    rcases ha with rfl | rfl | rfl
+    · rw [r3] at he; cases he
+    · rw [r2] at he; simp only [List.mem_cons, List.not_mem_nil, or_false] at he; subst he; cases hbf
+    · rw [r1] at he; cases he
+  · intro a ha e he _
+    simp only [fleetCfgRev, List.mem_cons, List.not_mem_nil, or_false] at ha
+    rcases ha with rfl | rfl | rfl
+    · rw [r3] at he; cases he
+    · rw [r2] at he; simp only [List.mem_cons, List.not_mem_nil, or_false] at he; subst he
+      refine ⟨⟨[fleetBM], by decide +kernel, List.Perm.of_eq (by decide +kernel)⟩, Or.inr ?_⟩
+      have : boostTargets fleetCfgRev fleetMod.fit = [fleetShip1, fleetShip3] := by rfl
+      rw [this]; exact List.Perm.of_eq (by decide +kernel)
+    · rw [r1] at he; cases he
+
+/-- The theorem applied to the two histories; the tables of the two configurations are different lists. -/
+example :
+    observe fleetW (toState (wrun fleetU fleetW fleetS0 fleetHist)) (3, 37) =
+      observe fleetW (toState (wrun fleetU fleetW fleetS0Rev fleetHist)) (3, 37) ∧
+    observe fleetW (toState (wrun fleetU fleetW fleetS0Rev fleetHist)) (3, 37) = some 150 ∧
+    evalAll fleetU fleetCfg specImmune specLimited fleetPen ≠ evalAll fleetU fleetCfgRev specImmune specLimited fleetPen := by
+  have h := obs_item_order_irrelevant_world (u := fleetU) (by decide) fleet_wf.2.1 fleet_wf.2.2.1 (by decide)
+    fleet_wf.2.2.2.1 fleet_wf.2.2.2.2.1 fleet_wf.2.2.2.2.2 fleetRev_wf.1 fleetRev_wf.2.1 fleetRev_wf.2.2
+    fleetHist fleetHist fleet_runOK fleetRev_runOK _ _ rfl rfl fleetRev_perm fleet_hset fleetRev_hset
+    (by decide +kernel) (x := fleetShip3) (List.mem_cons_of_mem _ (List.mem_cons_of_mem _ List.mem_cons_self))
+    (am := ⟨37, none, none, true, true⟩) (List.mem_cons_of_mem _ (List.mem_cons_of_mem _ List.mem_cons_self))
+  have ht : valToOption (World.read (evalAll fleetU fleetCfg specImmune specLimited fleetPen) fleetShip3 37) =
+      some 150 := by decide +kernel
+  exact ⟨h.1, h.1.symm.trans (h.2.trans ht), by decide +kernel⟩
+
+/-! ## Message level, any reachable state: the item order is irrelevant for every observation
+
+The theorems above compare from-scratch tables, i.e. settled states.  The message-level calculation
+(`Micro.gatherD` over `allSpecs = cfg.items.flatMap …`) iterates over the item list in *every* state, settled or not.
+`evalD_items_perm`: the local evaluation of a node does not depend on the order of the item list, for any registers;
+hence the from-scratch values `spec` of the two dependency graphs agree, and any two states satisfying the invariant
+whose configurations differ in the item order only and whose registers are equal are observed identically at every
+node — no settledness, no "non-zero divisors" hypothesis. -/
+
+section anystate
+variable {u : Universe} {cfg cfg' : Config} {immune limited : List Int} {pen : Nat → Rat}
+
+theorem targetsOf_perm (E : ItemsPerm cfg cfg') (hU : UniqueIds cfg) (d : Dyn) :
+    targetsOf cfg' d = targetsOf cfg d := by
+  funext a e; unfold targetsOf; rw [item?_perm E hU]
+
+theorem projSpecs_perm (E : ItemsPerm cfg cfg') (hU : UniqueIds cfg) (d : Dyn) :
+    projSpecs u cfg' d = projSpecs u cfg d := by
+  funext a; unfold projSpecs; rw [targetsOf_perm E hU]
+
+theorem selects_perm (E : ItemsPerm cfg cfg') : selects cfg' = selects cfg := by
+  funext s x tx; unfold selects; rw [affectsLocal_perm E, affectsProjected_perm E]
+
+theorem specsOn_items_perm (E : ItemsPerm cfg cfg') (hU : UniqueIds cfg) (d : Dyn) (x : Item) (tx : ItemType)
+    (attr : Int) : (specsOn u cfg d x tx attr).Perm (specsOn u cfg' d x tx attr) := by
+  unfold specsOn allSpecs
+  rw [projSpecs_perm E hU, selects_perm E]
+  exact (E.items.symm.flatMap_right _).filter _
+
+theorem specOut_perm (E : ItemsPerm cfg cfg') (hU : UniqueIds cfg) : specOut cfg' = specOut cfg := by
+  funext rd x imm s
+  unfold specOut resistD resistRead Micro.carrierOf
+  rw [item?_perm E hU, shipOf_perm E]
+
+theorem evalD_items_perm (E : ItemsPerm cfg cfg') (hU : UniqueIds cfg) (d : Dyn) (n : Node)
+    (f : Node → Option Rat) :
+    evalD u cfg' d immune limited pen n f = evalD u cfg d immune limited pen n f := by
+  unfold evalD
+  rw [item?_perm E hU]
+  cases item? cfg n.1 with
+  | none => rfl
+  | some x =>
+    cases attrMeta? u n.2 with
+    | none => rfl
+    | some am =>
+      dsimp only
+      unfold valueOfD
+      split
+      · rfl
+      · cases typeOf? u d x with
+        | none => rfl
+        | some tx =>
+          dsimp only
+          cases Micro.baseOf tx am with
+          | none => rfl
+          | some b =>
+            dsimp only
+            rw [gatherD_eq_fold, gatherD_eq_fold, specOut_perm E hU]
+            rcases foldlM_stepS_perm (out := specOut cfg (readerOf u f) x (immuneOf u d immune))
+              (out' := specOut cfg (readerOf u f) x (immuneOf u d immune))
+              (specsOn_items_perm (u := u) E hU d x tx am.id) (fun _ _ => rfl) with
+              ⟨l, l', h1, h2, hp⟩ | ⟨w, w', h1, h2, ⟨_, _, e1⟩, ⟨_, _, e2⟩⟩
+            · simp only [h1, h2, calculate_perm' pen am.stackable am.hig b hp]
+            · simp only [h1, h2]
+              rw [valToOption_err (specOut_err e1), valToOption_err (specOut_err e2)]
+
+/-- **The from-scratch values of the message-level model do not depend on the order of the item list**, for any
+registers `d` (settled or not). -/
+theorem spec_item_order_irrelevant_world (hwf : rankWF u = true) (E : ItemsPerm cfg cfg') (hU : UniqueIds cfg)
+    (d : Dyn) (n : Node) :
+    spec (worldGraph u immune limited pen hwf (cfg', d)) n = spec (worldGraph u immune limited pen hwf (cfg, d)) n := by
+  have T := worldGraph_ties (immune := immune) (limited := limited) (pen := pen) hwf
+  refine spec_congr_graph _ _ (fun m f => ?_) n
+  rw [T.heval, T.heval, evalD_items_perm E hU]
+
+/-- **Any two reachable states that differ in the order of the item list only are observed identically.**  `s`,
+`s'` satisfy the invariant `MInv` (every state a legal history reaches: `C01World.micro_inv_run`), their
+configurations differ in the item order only, their registers are equal; the caches may be entirely different (other
+reads, other removal orders).  Every node is observed alike. -/
+theorem obs_item_order_any_state_world (hwf : rankWF u = true) {s s' : MState}
+    (inv : MInv (worldGraph u immune limited pen hwf) s) (inv' : MInv (worldGraph u immune limited pen hwf) s')
+    (E : ItemsPerm s.cfg s'.cfg) (hd : s'.dyn = s.dyn) (n : Node) :
+    observe (worldGraph u immune limited pen hwf) (toState s) n =
+      observe (worldGraph u immune limited pen hwf) (toState s') n := by
+  rw [observe_eq_spec _ _ inv.good, observe_eq_spec _ _ inv'.good]
+  show spec (worldGraph u immune limited pen hwf (s.cfg, s.dyn)) n =
+    spec (worldGraph u immune limited pen hwf (s'.cfg, s'.dyn)) n
+  rw [hd, spec_item_order_irrelevant_world hwf E inv.uniq]
+
+end anystate
+
+/-! ### Non-vacuity of `obs_item_order_any_state_world`: an unsettled state
+
+After the first message of `fleetHist` alone (the boost effect runs, nothing is registered or applied yet) the state
+is not settled.  The same message on the configuration with the items listed backwards (same start registers)
+reaches a state with equal registers; both satisfy the invariant; the theorem applies: ship 3's attribute 37 is
+observed alike — the un-boosted 100. -/
+
+example :
+    observe fleetW (toState (wrun fleetU fleetW fleetS0 [.micro (.start 2 [2000])])) (3, 37) =
+      observe fleetW (toState (wrun fleetU fleetW ⟨fleetCfgRev, fleetD0, fun _ => none⟩
+        [.micro (.start 2 [2000])])) (3, 37) ∧
+    observe fleetW (toState (wrun fleetU fleetW fleetS0 [.micro (.start 2 [2000])])) (3, 37) = some 100 := by
+  have T := worldGraph_ties (u := fleetU) (immune := specImmune) (limited := specLimited) (pen := fleetPen)
+    (by decide)
+  have ok1 : WRunOKE fleetU specImmune specLimited fleetPen fleetW fleetS0 [.micro (.start 2 [2000])] :=
+    ⟨fleet_runOK.1, trivial⟩
+  have ok2 : WRunOKE fleetU specImmune specLimited fleetPen fleetW ⟨fleetCfgRev, fleetD0, fun _ => none⟩
+      [.micro (.start 2 [2000])] := by
+    refine ⟨⟨fun e _ => rfl, fun _ => ⟨?_, ?_⟩⟩, trivial⟩ <;> (unfold ErrorFree; decide +kernel)
+  have inv1 := micro_inv_run T (by decide) fleet_wf.2.1 fleet_wf.2.2.1 fleet_wf.2.2.2.1 fleet_wf.2.2.2.2.1
+    fleet_wf.2.2.2.2.2 _ (wrunOK_of_errorFree T _ _ ok1)
+  have inv2 := micro_inv_run T (by decide) fleet_wf.2.1 fleet_wf.2.2.1 fleetRev_wf.1 fleetRev_wf.2.1
+    (d := fleetD0) (fun a e t ht => by simp [targetsOf, fleetD0] at ht) _ (wrunOK_of_errorFree T _ _ ok2)
+  refine ⟨obs_item_order_any_state_world (by decide) inv1 inv2 fleetRev_perm rfl (3, 37), ?_⟩
+  refine (observe_eq_spec fleetW _ inv1.good (3, 37)).trans ?_
+  show spec (fleetW (fleetCfg, (wrun fleetU fleetW fleetS0 [.micro (.start 2 [2000])]).dyn)) (3, 37) = some 100
+  decide +kernel
 
 end Eos.C08World
